@@ -300,10 +300,19 @@ func runE2E(t *rapid.T, scn e2eScn, w *e2eWorld, pl payload, sel datamodel.Node,
 	if bes[len(bes)-1].status != datatransfer.Completed {
 		return fail("C01/responder-not-completed", "initiator reports Completed but the responder ended %s (%q)", datatransfer.Statuses[bes[len(bes)-1].status], bes[len(bes)-1].vec.Message)
 	}
+	// (on the release of a finalization the manager records the events first and sends the
+	// final Complete afterwards, and the tap logs a send when it has returned: the responder
+	// can be Completed, and the initiator can have processed the message, before the tap's
+	// entry exists - so the log is polled, not read once)
 	finalComplete := false
-	for _, s := range b.sent.snapshot() {
-		if resp, ok := s.Msg.(datatransfer.Response); ok && !s.Msg.IsRequest() && resp.IsComplete() && !resp.IsPaused() && s.To == a.host.ID() && s.Msg.TransferID() == chid.ID && s.Err == nil {
-			finalComplete = true
+	for deadline := time.Now().Add(watchdog); !finalComplete && time.Now().Before(deadline); {
+		for _, s := range b.sent.snapshot() {
+			if resp, ok := s.Msg.(datatransfer.Response); ok && !s.Msg.IsRequest() && resp.IsComplete() && !resp.IsPaused() && s.To == a.host.ID() && s.Msg.TransferID() == chid.ID && s.Err == nil {
+				finalComplete = true
+			}
+		}
+		if !finalComplete {
+			time.Sleep(200 * time.Microsecond)
 		}
 	}
 	if !finalComplete {
@@ -368,7 +377,18 @@ func TestC01_E2E(t *testing.T) {
 			reqFinal:    rapid.IntRange(0, 2).Draw(t, "finalization") == 0,
 		}
 		w := newE2EWorld(t)
-		defer w.close()
+		defer func() {
+			// stopping both nodes must return: a blocked Stop is a deadlock inside the
+			// library (C20), reported as such when this test runs for C20 and as
+			// inconclusive for the property this run was started for otherwise
+			if !within(w.close) {
+				key := "HARNESS/teardown-blocked-by-library-deadlock"
+				if os.Getenv("VERIF_PROP") == "C20" {
+					key = "C20/stop-did-not-return"
+				}
+				mfail(t, nil, key, "stopping the two nodes did not return within %s (goroutines blocked inside the library)", watchdog)
+			}
+		}()
 		senderStore := w.a.store
 		if scn.pull {
 			senderStore = w.b.store
@@ -437,6 +457,13 @@ func TestC01_E2E(t *testing.T) {
 			mfail(t, full, key, "%s", msg)
 		}
 		sp.Eval()
+		if os.Getenv("VERIF_PROP") == "C20" {
+			stats.For("C20").Eval()
+			stats.For("C20").Class("e2e_two_real_nodes")
+			if scn.fault != "" || scn.pauseAfter > 0 {
+				stats.For("C20").Nontrivial(stats.FP("e2e", scn.String(), pl.blocks))
+			}
+		}
 		sp.Class("outcome_" + class)
 		dir := "push"
 		if scn.pull {
